@@ -46,7 +46,15 @@ def _mc(work, tier, name, progs, max_emits, mdset, maxfail, res, timeout):
     res.tlc_runs.append(dict(name="SyncFlow/" + name, states=r.distinct, transitions=r.generated, ok=r.ok,
                              violated=r.violated, wall_s=round(r.wall, 1), programs=len(progs),
                              constants=dict(MaxEmits=max_emits, Md=sorted(mdset), MaxFail=maxfail, Vals="0..2")))
-    if not r.ok:
+    if not r.ok and not r.violated:
+        # refuted nothing and did not finish: the property held on everything explored (recorded as incomplete); any other TLC
+        # failure is a failure of the machinery, never a verdict
+        if (r.error or "").startswith("timeout"):
+            res.tlc_runs[-1]["incomplete"] = r.error
+            res.tlc_runs[-1]["ok"] = None
+        else:
+            raise core.MachineryError("TLC failed on SyncFlow/%s: %s" % (name, (r.error or "")[:800]))
+    elif not r.ok:
         prop = INV_PROP.get(r.violated or "", "C01")
         res.violations.append(dict(property=prop, clause=r.violated or "tlc-error", engine="sync",
                                    what="SyncFlow.tla itself violates %s (design-level counter-example)" % r.violated
